@@ -1,11 +1,13 @@
 //! Components that are valid Rust but violate one of pavexc's rules.
 pub mod cycle;
+pub mod diamonds;
 pub mod generic;
 pub mod lifecycle;
 pub mod missing;
 pub mod mutref;
 pub mod noclone;
 pub mod observer;
+pub mod observer_cycle;
 pub mod overlap;
 pub mod pathparam;
 pub mod unit;
